@@ -35,10 +35,14 @@ def fl(x):
 
 
 class PedArrays:
-    def __init__(self, ped, layout=None):
+    def __init__(self, ped, layout=None, pad=0):
+        """pad: number of unrelated diploid founders without reads listed BEFORE the pedigree's individuals (the joint
+        posterior factorises over them, so every conditional of the real individuals is unchanged); the real individuals
+        then have sample indices pad .. pad + n - 1"""
         self.ped = ped
         n = ped["n"]
         self.n = n
+        self.pad = pad
         self.K = ped["K"]
         self.ploidy = np.array(ped["ploidy"], dtype=np.int64)
         self.maxp = int(self.ploidy.max())
@@ -68,14 +72,24 @@ class PedArrays:
                         self.dists[i, m, j, 1 - c] = 1.0 - P_OK
         with np.errstate(all="ignore"):
             self.logf = np.log(np.array([fl(x) for x in ped["f"]], dtype=np.float64))
+        if pad:
+            self.n = n + pad
+            self.ploidy = np.concatenate([np.full(pad, 2, dtype=np.int64), self.ploidy])
+            self.parents = np.concatenate([np.full((pad, 2), -1, dtype=np.int64), np.where(self.parents >= 0, self.parents + pad, -1)])
+            self.tau = np.concatenate([np.ones((pad, 2), dtype=np.int64), self.tau])
+            self.lam = np.concatenate([np.zeros((pad, 2)), self.lam])
+            self.err = np.concatenate([np.zeros((pad, 2)), self.err])
+            self.dists = np.concatenate([np.full((pad,) + self.dists.shape[1:], np.nan), self.dists])
+            self.counts = np.concatenate([np.zeros((pad, nr), dtype=np.int64), self.counts])
         self.children = M.sample_children_matrix(self.parents)
         self.pairs, self.blankets = M.parental_pair_markov_blankets(self.parents, self.children)
         self.scratch = [np.zeros(self.maxp, dtype=np.int64) for _ in range(7)] + [np.zeros(self.maxp, dtype=np.float64)]
 
     def genotypes(self, s, dtype=np.int16):
         g = np.full((self.n, self.maxp), -1, dtype=dtype)
+        g[: self.pad, :2] = 0
         for i, x in enumerate(s):
-            g[i, : len(x)] = x
+            g[self.pad + i, : len(x)] = x
         return g
 
     def kernel_args(self, g, cache=None):
@@ -90,10 +104,10 @@ class PedArrays:
 _peds = {}
 
 
-def get_ped(ped, layout=None):
-    k = (ped["name"], repr(layout))
+def get_ped(ped, layout=None, pad=0):
+    k = (ped["name"], repr(layout), pad)
     if k not in _peds:
-        _peds[k] = PedArrays(ped, layout)
+        _peds[k] = PedArrays(ped, layout, pad)
     return _peds[k]
 
 
@@ -133,17 +147,17 @@ def run(task):
                 "blankets": [[int(x) + 1 for x in r if x >= 0] for r in A.blankets],
                 "children": [[int(x) + 1 for x in r if x >= 0] for r in A.children]}
     if op == "allele_kernels":
-        A = get_ped(task["ped"], task.get("layout"))
+        A = get_ped(task["ped"], task.get("layout"), task.get("pad", 0))
         out = []
         for s in task["states"]:
             g = A.genotypes(s)
             g0 = g.copy()
             rows = []
-            for i in range(A.n):
+            for i in range(A.pad, A.n):
                 for k in range(int(A.ploidy[i])):
                     gb = M.gibbs_probabilities(i, k, *A.kernel_args(g))
                     mh = M.metropolis_hastings_probabilities(i, k, *A.kernel_args(g))
-                    rows.append({"i": i + 1, "k": k + 1, "gibbs": vec(gb), "mh": vec(mh)})
+                    rows.append({"i": i - A.pad + 1, "k": k + 1, "gibbs": vec(gb), "mh": vec(mh)})
             out.append({"rows": rows, "restored": bool((g == g0).all())})
         return out
     if op == "swap_py":
